@@ -17,6 +17,8 @@ def _site_names():
             name = tok.split("=")[0].strip()
             names[i] = name.replace("MYTH_VS_", "").replace("MYTH_VP_", "P_").lower()
             i += 1
+        names[i + 1] = "fn_enter"   # flavour fn: function-granularity schedule points
+        names[i + 2] = "fn_exit"
     except Exception:
         pass
     names[0] = "user_point"
